@@ -686,3 +686,53 @@ def build11(m):
                  ("implies(result, line.strip() != '')", ['C01'])],
         modifies=['G:HtmlBlock._end_cond'],
         prop=['C01', 'C05', 'C11', 'C03']), classmethod_=True)
+
+
+def build12(m):
+    """The link-reference-definition scanner: returned offsets lie in the string and move forward
+    (C01 termination of Footnote.read, C07)."""
+    def method(cls, name, c, static=False, classmethod_=False):
+        m.methods[(cls, name)] = c.key
+        c.is_static = static
+        c.is_classmethod = classmethod_
+        m.add(c)
+        return c
+    ns = m.namespaces[MOD]
+    ns['whitespace'] = ('charset', frozenset({' ', '\t', '\n', '\x0b', '\x0c', '\r'}))
+    ns['is_control_char'] = ('func', 'mistletoe.core_tokens:is_control_char')
+    ns['follows'] = ('func', 'mistletoe.core_tokens:follows')
+    ns['shift_whitespace'] = ('func', 'mistletoe.core_tokens:shift_whitespace')
+    SPAN3 = TTuple([INT, INT, STR])
+    method('Footnote', 'match_link_label', Contract(
+        MOD + ':Footnote.match_link_label', [('cls', cls_t('Footnote')), ('string', STR), ('offset', INT)],
+        returns=TOpt(SPAN3), pure=True,
+        requires=['0 <= offset', 'offset <= len(string)'],
+        ensures=['implies(not is_none(result), offset <= some(result)[0] and some(result)[0] < some(result)[1] '
+                 "and some(result)[1] <= len(string) and string[some(result)[1] - 1] == ']')",
+                 # C07: a label starts at its opening bracket -- never before the offset
+                 ("implies(not is_none(result), string[some(result)[0]] == '[')", 'C07')],
+        loops={0: Loop(invariant=['start == -1 or (offset <= start and start < offset + _k0)',
+                                  "implies(start != -1, string[start] == '[')"])},
+        prop=['C01', 'C07']), classmethod_=True)
+    method('Footnote', 'match_link_dest', Contract(
+        MOD + ':Footnote.match_link_dest', [('cls', cls_t('Footnote')), ('string', STR), ('offset', INT)],
+        returns=TOpt(SPAN3), pure=True,
+        requires=['0 <= offset', 'offset < len(string)'],
+        ensures=['implies(not is_none(result), some(result)[0] == offset and offset <= some(result)[1] '
+                 'and some(result)[1] <= len(string))'],
+        loops={0: Loop(invariant=[]), 1: Loop(invariant=[])},
+        prop=['C01', 'C07']), classmethod_=True)
+    method('Footnote', 'match_link_title', Contract(
+        MOD + ':Footnote.match_link_title', [('cls', cls_t('Footnote')), ('string', STR), ('offset', INT)],
+        returns=TOpt(SPAN3), pure=True,
+        requires=['0 <= offset', 'offset <= len(string)'],
+        ensures=['implies(not is_none(result), some(result)[0] == offset and offset < some(result)[1] '
+                 'and some(result)[1] <= len(string))'],
+        loops={0: Loop(invariant=[])},
+        prop=['C01', 'C07']), classmethod_=True)
+    mr = m.contracts[MOD + ':Footnote.match_reference']
+    mr.trusted = False
+    mr.note = 'verified: a recognised definition ends just after a line ending beyond the offset'
+    mr.prop = ['C01', 'C07']
+    mr.loops = {0: Loop(invariant=['title_end <= line_end', 'line_end <= len(string)'], decreases='len(string) - line_end')}
+    mr.body_types = {}
